@@ -22,7 +22,7 @@ LEVEL_NOTE = ("Trusted: Lean kernel, standard axioms; hand-written model tied by
               "refs._resolve_module_name are exercised by the oracle, not modelled.")
 TECHNIQUE = "Lean 4 theorems (wrapper erasure preserves every non-fuel outcome, via fuel stability); metamorphic oracle W(T) vs T on the real routines; correspondence"
 DESIGN_REF = "DESIGN.md §5 C11"
-MODULES = ["TypelibModel.Props.Dispatch"]
+MODULES = ["TypelibModel.Props.C11", "TypelibModel.Props.Dispatch"]
 TABLES = True
 RULE = ("T from U (depth <= 2/3); chains of length 1-3 over the seven wrapper kinds where Python permits them (NewType only over "
         "class-like targets, ClassVar at the root only, Final at the root and on fields); positions root / collection argument / "
